@@ -41,6 +41,8 @@ pub struct CongestionController {
     need_send_ack_eliciting_packets: [usize; Epoch::count()],
     path_status: PathStatus,
     tx_waker: ArcSendWaker,
+    // Packet number spaces whose keys have already been discarded once.
+    discarded_epochs: [bool; Epoch::count()],
 }
 
 impl CongestionController {
@@ -75,6 +77,7 @@ impl CongestionController {
             need_send_ack_eliciting_packets: [0; Epoch::count()],
             path_status,
             tx_waker,
+            discarded_epochs: [false; Epoch::count()],
         }
     }
 
@@ -460,7 +463,14 @@ impl CongestionController {
         assert!(epoch != Epoch::Data);
         self.packet_spaces[epoch].discard(&mut self.algorithm);
         self.loss_detection_timer = None;
-        self.pto_count = 0;
+        // The keys of a packet number space are discarded once: only that event resets the PTO
+        // backoff.  A client calls this for every Handshake packet it sends, a server for every
+        // Handshake ACK it receives; repeating the reset would keep a client whose Handshake
+        // packets go unanswered from ever backing off (RFC 9002 Section 6.2.1, 6.2.2.1).
+        if !self.discarded_epochs[epoch] {
+            self.discarded_epochs[epoch] = true;
+            self.pto_count = 0;
+        }
         self.set_loss_detection_timer();
     }
 
